@@ -120,6 +120,29 @@ CLAIMED = {
               "(harness/pipeline.py, oracle.py). One defect repaired (underfull groups after pruning)."),
         technique="Lean 4 proof (induction over the gate scan, order reasoning, Q arithmetic) + pipeline-model correspondence with replayed Skia oracle + executable-grammar search",
         ref="DESIGN.md §4 C01"),
+    "C07": dict(
+        text=("Fixed-point lemmas in Lean 4 for the steps that could drift on re-conversion: a group emitted by the conversion "
+              "(only an opacity in (0,1), >= 2 children) is kept again; a gradient transform whose translation is already folded is "
+              "returned unchanged by decompose_translation; decimal rounding is idempotent (Q). The byte-level statement is judged on "
+              "every run: pass 2 and pass 3 of the implementation must equal pass 1 for every ndigits and the library's own gate must "
+              "be clean; the Lean pipeline model is tied to the code on the second pass as well (trees and Skia questions). Not a "
+              "closed theorem yet: 'IsPico d -> toPico d = ok d' on the model."),
+        note=("Trusted: Lean kernel; propext/Classical.choice/Quot.sound; lxml serialisation; CPython repr/float/round (modelled "
+              "exactly in F64.lean, sampled). Three defects repaired (orphans after pruning, underfull groups, unrounded pushed opacity)."),
+        technique="Lean 4 proof (fixed-point lemmas over ordered fields / Q) + second-pass pipeline correspondence + byte-identical re-conversion search",
+        ref="DESIGN.md §4 C07"),
+    "C08": dict(
+        text=("Lean 4 theorems on the pipeline model's id machinery: an id allocated by _new_id (cloned gradient <id>_<n>, nested-svg "
+              "viewport clip) is not among the ids of the tree searched and carries the requested prefix (induction over the search); "
+              "_add_to_defs neither loses nor duplicates members and adds the new element exactly when it has an id. The document-level "
+              "invariant (unique ids, every url(#x) fill resolves to a gradient in defs, no unreferenced gradient, no href) is judged on "
+              "every converted document from a generator that stresses shared references and colliding generated ids; the pipeline "
+              "model is tied to the code on the same documents."),
+        note=("Trusted: Lean kernel; core axioms only; harness reference checker; lxml. One defect repaired (orphans after pruning). "
+              "Observed and recorded in DESIGN: nested svg inside nested svg allocates the same viewport clip id twice and the "
+              "conversion raises ValueError (no converted document, hence outside this property)."),
+        technique="Lean 4 proof (induction over the id search, list membership) + pipeline correspondence + reference-graph search",
+        ref="DESIGN.md §4 C08"),
 }
 
 def main():
